@@ -232,6 +232,10 @@ def run_bounds(ctx, spec):
         for dt in (-1e-6, 1e-6):
             for p in (1e3, 1e5, 1e7, 1.7e7, 2.2e7, 5e7, 9.9e7):
                 pts.append((t + dt, p))
+    # zero and negative pressures, temperatures far outside: a range-checked call returns no value there, it never raises
+    for t in (0.5, 20.0, 200.0, 360.0, 600.0, 799.0, -300.0, 1e4):
+        for p in (0.0, -1.0, -1e5, -1e9):
+            pts.append((t, p))
     for t in lin(1.0, 799.0, 60):
         for pf in (1 - 1e-6, 1 + 1e-6):
             pts.append((t, 1e8 * pf))
@@ -252,7 +256,7 @@ def run_bounds(ctx, spec):
         ctx.count('bounds_checked')
         ctx.case(('b', t, p), True)
         # skip states within rounding of a limit (either answer is right there)
-        near = any(abs(t - x) < 1e-9 for x in (0.01, 350.0, TC1_C, 590.0, 800.0)) or abs(p / 1e8 - 1) < 1e-12 or \
+        near = p == 0.0 or any(abs(t - x) < 1e-9 for x in (0.01, 350.0, TC1_C, 590.0, 800.0)) or abs(p / 1e8 - 1) < 1e-12 or \
             (psat is not None and abs(p / psat - 1) < 1e-12) or (350 < t <= 590 and abs(p / ifc_b23p(t) - 1) < 1e-12)
         if near:
             continue
@@ -273,7 +277,7 @@ def run_bounds(ctx, spec):
         if gotc and rc0 is not None and tuple(rc) != tuple(rc0):
             ctx.violation('bounds:cowat:changes-value', 'bounds flag changes the result: %r vs %r' % (rc, rc0), case)
     # sat / tsat
-    for t in lin(-1.0, 380.0, int(400 / spec['f'])) + [0.01 - 1e-9, 0.01 + 1e-9, TC1_C - 1e-9, TC1_C + 1e-9]:
+    for t in lin(-1.0, 380.0, int(400 / spec['f'])) + [0.01 - 1e-9, 0.01 + 1e-9, TC1_C - 1e-9, TC1_C + 1e-9, -273.15, -300.0, 1e4]:
         case = {'clause': 'bounds sat', 't': t}
         with ctx.guard(case) as g:
             r = checked_in_any_order(ctx, T.sat, (t,), case, 'sat')
@@ -286,7 +290,7 @@ def run_bounds(ctx, spec):
             ctx.violation('bounds:sat', 'sat(%r, bounds=True) = %r' % (t, r), case)
     plo = T.sat(0.01)
     for p in [plo * (1 - 1e-9), plo * (1 + 1e-9), PC1 * (1 - 1e-9), PC1 * (1 + 1e-9), 100.0, 1e5, 1e7, 3e7, 2.3e7, 5e7, 9e7] + \
-            [ctx.rng.uniform(PC1 * 1.001, 1.0e8) for _ in range(20)]:
+            [ctx.rng.uniform(PC1 * 1.001, 1.0e8) for _ in range(20)] + [0.0, -1.0, -1e5]:
         case = {'clause': 'bounds tsat', 'p': p}
         with ctx.guard(case) as g:
             r = checked_in_any_order(ctx, T.tsat, (p,), case, 'tsat')
